@@ -544,6 +544,21 @@ theorem mergeLocals_ok : ∀ (b a c : Locals), mergeLocals a b = .ok c →
 theorem mergeLocals_sub {a b c : Locals} (h : mergeLocals a b = .ok c) : Sub a c ∧ Sub b c :=
   ⟨(mergeLocals_ok b a c h).1, fun n s hn => (mergeLocals_ok b a c h).2 n s (lookupS_mem hn)⟩
 
+theorem lookupS_append_left {α : Type} {n : String} {s : α} : ∀ {a b : List (String × α)},
+    lookupS n a = some s → lookupS n (a ++ b) = some s
+  | [], _, h => by simp [lookupS] at h
+  | (k, v) :: a, b, h => by
+    rw [List.cons_append, lookupS_cons] at *
+    split
+    · next hk => rw [if_pos hk] at h; exact h
+    · next hk => rw [if_neg hk] at h; exact lookupS_append_left h
+
+theorem sub_callLocals (f : String) (l : Locals) : Sub l (callLocals f l) := by
+  unfold callLocals
+  split
+  · exact fun n s h => lookupS_append_left h
+  · exact Sub.refl _
+
 mutual
 theorem wfEffect_mono (env : SortEnv) : ∀ (e : ILEffect) (Γ Γ' : Locals), wfEffect env Γ e = .ok Γ' → Sub Γ Γ'
   | .setl n v, Γ, Γ', h => by
@@ -866,7 +881,18 @@ theorem exec_sound_aux (ms : MacroSem) (subs : SubEnv) (macros : List (String ×
                   dsimp only
                   split
                   · exact setUsrFieldIL_execOk hW
-                  · exact notSort_undef f
+                  · split
+                    · next hg =>
+                      -- the checker merged `ret_val : bv 64` into its locals for this callee (`callLocals`)
+                      have hret : lookupS "ret_val" Δ = some (.bv 64) := by
+                        refine hΔ _ _ ((mergeLocals_ok _ _ _ hwf1).2 "ret_val" (.bv 64) ?_)
+                        simp [callLocals, hg]
+                      unfold getUsrFieldIL
+                      split
+                      · refine ⟨WeakAgree.setLocal hW (fun t ht => ?_), rfl⟩
+                        rw [hret] at ht; cases ht; rfl
+                      · exact notSort_undef _
+                    · exact notSort_undef f
                 | some pb =>
                   obtain ⟨ps, body⟩ := pb
                   dsimp only
@@ -885,7 +911,7 @@ theorem exec_sound_aux (ms : MacroSem) (subs : SubEnv) (macros : List (String ×
                     rw [lookupS_zip_map, hvs, hss']
                   have hb := ihE body (subEnv macros sigs ps sig) Γ0 Γb
                     { σ with params := ps.zip vs } rfl rfl (Or.inr ⟨hS, hslot⟩) hwb
-                    ((hΓb.trans hm.2).trans hΔ) hW hPb
+                    ((hΓb.trans ((sub_callLocals f _).trans hm.2)).trans hΔ) hW hPb
                   cases hr : execIL ms subs fuel body { σ with params := ps.zip vs } with
                   | error e => rw [hr] at hb; exact hb
                   | ok σ' => rw [hr] at hb; exact ⟨hb.1, rfl⟩
